@@ -147,7 +147,8 @@ void FlexPath::scale(double scael_factor, const Vec2 center) {
     if (scale_width) wo_scale.u = wo_scale.v;
     FlexPathElement* el = elements;
     for (uint64_t ne = 0; ne < num_elements; ne++, el++) {
-        el->end_extensions *= scael_factor;
+        el->end_extensions *= fabs(scael_factor);
+        el->bend_radius *= fabs(scael_factor);
         Vec2* wo = el->half_width_and_offset.items;
         for (uint64_t num = spine.point_array.count; num > 0; num--) *wo++ *= wo_scale;
     }
@@ -217,7 +218,8 @@ void FlexPath::transform(double magnification, bool x_reflection, double rotatio
     if (x_reflection) wo_scale.v = -wo_scale.v;
     FlexPathElement* el = elements;
     for (uint64_t ne = 0; ne < num_elements; ne++, el++) {
-        el->end_extensions *= magnification;
+        el->end_extensions *= fabs(magnification);
+        el->bend_radius *= fabs(magnification);
         Vec2* wo = el->half_width_and_offset.items;
         for (uint64_t num = spine.point_array.count; num > 0; num--) *wo++ *= wo_scale;
     }
